@@ -321,81 +321,92 @@ func c16Reconnecting(c *Ctx) {
 		{"idle+disconnect", nil, true},
 		{"pub-late+disconnect", []rcReq{{Kind: "p1", Tag: "m1", Phase: 'T'}}, true},
 	}
-	c.Bound("reconnecting", fmt.Sprintf("ReconnectClient with PingInterval %v / Timeout %v: workloads idle / one QoS 1 publish / publish after 15 s, optionally a final Disconnect after 45 s; faults %+v (peer close, peer silent => keep-alive timeout) F<=%d; every BaseClient handed out by the dialer is monitored; virtual time runs to 75 s (several keep-alive intervals past every reconnect); S<=1", interval, timeout, faults, f))
+	c.Bound("reconnecting", fmt.Sprintf("ReconnectClient with PingInterval %v / Timeout %v: workloads idle / one QoS 1 publish / publish after 15 s, optionally a final Disconnect at 45 s / exactly on the keep-alive tick at 40 s / 1 ns before / after it; faults %+v (peer close, peer silent => keep-alive timeout) F<=%d; every BaseClient handed out by the dialer is monitored; virtual time runs to 75 s (several keep-alive intervals past every reconnect); S<=1 P<=1 T<=1 (T: two timers due at the same instant may fire in either order relative to the tasks they wake; time itself stays exact)", interval, timeout, faults, f))
+	discInstants := []time.Duration{45 * time.Second, 40 * time.Second, 40*time.Second - 1, 40*time.Second + 1}
 	for _, w := range wls {
-		w := w
-		var r *rcRun
-		sc := &vrt.Scenario{
-			Name:  "C16/reconnecting/" + w.name,
-			Bound: vrt.Budget{F: f, S: 1},
-			Cfg:   vrt.Config{Horizon: int64(75 * time.Second)},
-			Body: func() {
-				discStart, discEnd := int64(-1), int64(-1)
-				cfg := &rcCfg{Reqs: w.reqs, Faults: faults, KeepSession: true, PingInterval: interval, ConnTimeout: timeout}
-				if w.disc {
-					cfg.AfterConnect = func(r *rcRun) {
-						vrt.Go("disconnector", func() {
-							vrt.Sleep(int64(45 * time.Second))
-							discStart = vrt.Now()
-							r.rc.Disconnect(vctx.Background())
-							discEnd = vrt.Now()
-						})
-					}
-				}
-				rcExecuteInto(cfg, &r)
-				if !r.connectOK {
-					return
-				}
-				ctx := func() string { return r.summary() }
-				for i, b := range r.bases {
-					cn := r.net.Conns[i]
-					clock := 0
-					m := c16NewMon(&clock)
-					m.cli = b
-					// rebuild the monitor from the recorded callbacks and the wire trace (times in ms)
-					for _, e := range r.net.Trace {
-						if e.Conn == cn.ID && e.Dir == '<' && e.Pkt != nil && e.Pkt.Type == env.CONNACK && e.Pkt.ReturnCode == 0 && m.ackAt < 0 {
-							m.ackAt = int(e.T / 1e6)
+		for di, discAt := range discInstants {
+			if !w.disc && di > 0 {
+				continue
+			}
+			w, discAt := w, discAt
+			var r *rcRun
+			sc := &vrt.Scenario{
+				Name:  fmt.Sprintf("C16/reconnecting/%s/disconnect@%v", w.name, discAt),
+				Bound: vrt.Budget{F: f, S: 1, P: 1, T: 1, Total: f + 1},
+				Cfg:   vrt.Config{Horizon: int64(75 * time.Second), DueTimers: true},
+				Body: func() {
+					discStart, discEnd := int64(-1), int64(-1)
+					cfg := &rcCfg{Reqs: w.reqs, Faults: faults, KeepSession: true, PingInterval: interval, ConnTimeout: timeout}
+					if w.disc {
+						cfg.AfterConnect = func(r *rcRun) {
+							vrt.Go("disconnector", func() {
+								// between two pings, exactly on a keep-alive tick, or just around it
+								vrt.Sleep(int64(discAt))
+								discStart = vrt.Now()
+								r.rc.Disconnect(vctx.Background())
+								discEnd = vrt.Now()
+							})
 						}
 					}
-					for _, s := range r.states {
-						if s.Conn == cn.ID {
-							m.evs = append(m.evs, c16Ev{s.State, s.Err, int(s.T / 1e6)})
-						}
+					rcExecuteInto(cfg, &r)
+					if !r.connectOK {
+						return
 					}
-					sil := r.broker.SilentSince(cn.ID)
-					// why did the link end? (a peer close caused by the client's own DISCONNECT is not an ending event)
-					for _, e := range r.net.Trace {
-						if e.Conn == cn.ID && e.Dir == '!' && strings.HasPrefix(e.Note, "closed by peer") {
-							if !strings.Contains(e.Note, "DISCONNECT received") {
-								m.endAt = int(e.T / 1e6)
+					ctx := func() string { return r.summary() }
+					for i, b := range r.bases {
+						cn := r.net.Conns[i]
+						clock := 0
+						m := c16NewMon(&clock)
+						m.cli = b
+						// rebuild the monitor from the recorded callbacks and the wire trace (times in ms)
+						for _, e := range r.net.Trace {
+							if e.Conn == cn.ID && e.Dir == '<' && e.Pkt != nil && e.Pkt.Type == env.CONNACK && e.Pkt.ReturnCode == 0 && m.ackAt < 0 {
+								m.ackAt = int(e.T / 1e6)
 							}
-							break
 						}
+						for _, s := range r.states {
+							if s.Conn == cn.ID {
+								m.evs = append(m.evs, c16Ev{s.State, s.Err, int(s.T / 1e6)})
+							}
+						}
+						sil := r.broker.SilentSince(cn.ID)
+						// why did the link end? (a peer close caused by the client's own DISCONNECT is not an ending event)
+						for _, e := range r.net.Trace {
+							if e.Conn == cn.ID && e.Dir == '!' && strings.HasPrefix(e.Note, "closed by peer") {
+								if !strings.Contains(e.Note, "DISCONNECT received") {
+									m.endAt = int(e.T / 1e6)
+								}
+								break
+							}
+						}
+						isLast := i == len(r.bases)-1
+						if isLast && discStart >= 0 {
+							m.dStart, m.dEnd = int(discStart/1e6), int(discEnd/1e6)
+						}
+						if m.endAt < 0 && sil >= 0 {
+							// a silent broker ends the connection only when the keep-alive gives up; if the
+							// application disconnects before that, the connection ended gracefully
+							if cn.ClosedAt >= 0 && (m.dStart < 0 || cn.ClosedAt < discStart) {
+								m.endAt = int(cn.ClosedAt / 1e6)
+							}
+						}
+						if sil >= 0 && cn.ClosedAt < 0 {
+							continue // silence began less than interval+timeout before the horizon
+						}
+						if !isLast && m.endAt < 0 {
+							// an earlier connection that was given up for a reason the model did not inject
+							vrt.Failf("c16/healthy-connection-replaced", "connection %d was replaced although nothing ended it\n %s\n%s", cn.ID, m.String(), ctx())
+							continue
+						}
+						m.judge(fmt.Sprintf("connection %d of %d (%s)", cn.ID, len(r.bases), w.name), c16DoneClosed(b), ctx)
 					}
-					if m.endAt < 0 && sil >= 0 {
-						m.endAt = int(sil / 1e6)
-					}
-					isLast := i == len(r.bases)-1
-					if isLast && discStart >= 0 {
-						m.dStart, m.dEnd = int(discStart/1e6), int(discEnd/1e6)
-					}
-					if sil >= 0 && cn.ClosedAt < 0 {
-						continue // silence began less than interval+timeout before the horizon
-					}
-					if !isLast && m.endAt < 0 {
-						// an earlier connection that was given up for a reason the model did not inject
-						vrt.Failf("c16/healthy-connection-replaced", "connection %d was replaced although nothing ended it\n %s\n%s", cn.ID, m.String(), ctx())
-						continue
-					}
-					m.judge(fmt.Sprintf("connection %d of %d (%s)", cn.ID, len(r.bases), w.name), c16DoneClosed(b), ctx)
-				}
-			},
-			Observe: func() uint64 { return r.net.TraceHash() },
-		}
-		c.Explore(sc)
-		if r != nil && len(r.broker.FaultLog) > 0 {
-			c.Sample(map[string]any{"workload": w.name, "faults": r.broker.FaultLog, "states": fmt.Sprint(r.states), "wire": r.net.TraceStrings()})
+				},
+				Observe: func() uint64 { return r.net.TraceHash() },
+			}
+			c.Explore(sc)
+			if r != nil && len(r.broker.FaultLog) > 0 {
+				c.Sample(map[string]any{"workload": w.name, "faults": r.broker.FaultLog, "states": fmt.Sprint(r.states), "wire": r.net.TraceStrings()})
+			}
 		}
 	}
 }
